@@ -52,16 +52,4 @@ theorem decodeProp_encodeProp (s : Int) (hs : InI64 s) : decodeProp (encodeProp 
   unfold decodeProp encodeProp
   simp only [↓reduceIte, le64_length, unle64_le64 _ h1, i64_u64 _ hs]
 
-/-- every version-1 attestation record decodes to int64-range values -/
-theorem decodeAtt_v1_inI64 (rest : Bytes) (s : AttState)
-    (h : decodeAtt ((1 : UInt8) :: rest) = some s) : InI64 s.src ∧ InI64 s.tgt := by
-  unfold decodeAtt at h
-  simp only [↓reduceIte] at h
-  split at h
-  · rename_i hl
-    injection h with h; subst h
-    refine ⟨i64_inI64 _ ?_, i64_inI64 _ ?_⟩
-    all_goals sorry
-  · cases h
-
 end Dirk
